@@ -86,6 +86,10 @@ mod imp {
     pub fn witness() -> Option<Vec<(String, String)>> {
         sym::witness()
     }
+    pub fn witness_with(extra: &[B]) -> Option<Vec<(String, String)>> {
+        let v: Vec<Bool> = extra.iter().map(|b| b.0.clone()).collect();
+        sym::witness_with(&v)
+    }
     pub fn trail() -> String {
         sym::trail()
     }
@@ -225,6 +229,9 @@ mod imp {
         ASSUME_BAD.with(|a| *a.borrow())
     }
     pub fn witness() -> Option<Vec<(String, String)>> {
+        None
+    }
+    pub fn witness_with(_extra: &[B]) -> Option<Vec<(String, String)>> {
         None
     }
     pub fn trail() -> String {
